@@ -56,6 +56,9 @@ type Obs struct {
 	Lookup map[string]LookupObs `json:"lookup,omitempty"`
 	// LoggerSet: instance id -> its logger-tagged field was set by the container.
 	LoggerSet map[string]bool `json:"loggerSet,omitempty"`
+	// LoggerPref: per instance with two logger fields, the prefix of the logger in `Log` (tag
+	// value empty) and in `Log2` (explicit prefix).
+	LoggerPref map[string][2]string `json:"loggerPref,omitempty"`
 	// ByIface: interface name -> objects returned by GetComponents(InterfaceType(...)) after
 	// Run; ByIfaceErr: the query failed (it creates lazy components, which may fail).
 	ByIface    map[string][]string `json:"byIface,omitempty"`
